@@ -49,9 +49,40 @@ def only_in_strings(seed):
         L.append("* [%s]" % g.word())
         L.append("  " + g.words())
         L.append("- " + g.words())
-    L += [g.words(), "-> END", "== function ext0(a) ==", "~ cnt_ext0 = cnt_ext0 + 1", "~ return a * 10 + 100"]
+    L += [g.words(), "-> END", "== function ext0(a) ==", "~ cnt_ext0 = cnt_ext0 + 1", "~ return a + 100"]
     return dict(src="\n".join(L) + "\n", id="instr-%d" % seed, ints=["v0"], bools=[], strs=[], functions=[],
-                externals=[dict(name="ext0", arity=1, spec=dict(impl="lin", coef=[10], add=100))], flows=[], knots=["k0"])
+                externals=[dict(name="ext0", arity=1, spec=dict(impl="lin", coef=[1], add=100))], flows=[], knots=["k0"])
+
+
+def only_nested(seed):
+    """a small program whose only external call sites sit in nested (unnamed) containers — a conditional block, a
+    choice body, a sequence — and not on the first line: the first continue must still refuse to run unbound"""
+    import gen_ink
+    g = gen_ink.Gen(seed, externals=0)
+    r = g.r
+    L = ["EXTERNAL ext0(a, b)", "VAR cnt_ext0 = 0", "VAR v0 = 1"]
+    form = r.choice(["root", "root-choice", "cond", "cond-knot", "seq", "choice", "stitch"])
+    if form == "root":
+        L += [g.words(), "%s {ext0(3, 4)}" % g.word(), g.words(), "-> END"]
+    elif form == "root-choice":
+        L += [g.words(), "* [%s]" % g.word(), "  %s {7 - ext0(2, 9)}" % g.word(), "* [%s]" % g.word(), "  " + g.words(),
+              "- " + g.words(), "-> END"]
+    else:
+        L += ["-> k0", "== k0 ==", g.words(), g.words()]
+        if form == "cond":
+            L += ["{ v0 > 0:", "  %s {ext0(3, 4)}" % g.word(), "- else:", "  " + g.word(), "}"]
+        elif form == "cond-knot":
+            L += ["-> k1", "== k1 ==", g.words(), "{ v0 > 0:", "  %s {ext0(3, 4)}" % g.word(), "}"]
+        elif form == "seq":
+            L += ["{ stopping:", "  - %s {ext0(5, 6)}" % g.word(), "  - " + g.word(), "}"]
+        elif form == "stitch":
+            L += ["-> k0.st", "= st", g.words(), "{ v0 > 0:", "  ~ v0 = ext0(1, 2)", "}", "%s {v0}" % g.word()]
+        elif form == "choice":
+            L += ["* [%s]" % g.word(), "  %s {7 - ext0(2, 9)}" % g.word(), "* [%s]" % g.word(), "  " + g.words(), "- " + g.words()]
+        L += [g.words(), "-> END"]
+    L += ["== function ext0(a, b) ==", "~ cnt_ext0 = cnt_ext0 + 1", "~ return a * 10 + b"]
+    return dict(src="\n".join(L) + "\n", id="nested-%d" % seed, ints=["v0"], bools=[], strs=[], functions=[],
+                externals=[dict(name="ext0", arity=2, spec=dict(impl="lin", coef=[10, 1], add=0))], flows=[], knots=["k0"])
 
 
 class Build:
@@ -97,8 +128,8 @@ def run(tier, seed):
     n = 30 if tier == "quick" else 400
     nviol = 0
     # call sites outside strings: both safety modes and late binding
-    progs = common.gen_programs(n, seed, vars=3, externals=3.0, ext_counters=1, assign_after_newline=2.0, glue=1.5)
-    progs_m = common.gen_programs(n, seed + 2, vars=3, externals=3.0, ext_counters=1, ext_markers=1, glue=0.0,
+    progs = common.gen_programs(n, seed, vars=3, externals=3.0, ext_counters=1, assign_after_newline=2.0, glue=1.5, retype=0.0)
+    progs_m = common.gen_programs(n, seed + 2, vars=3, externals=3.0, ext_counters=1, ext_markers=1, glue=0.0, retype=0.0,
                                   assign_after_newline=2.0)
     for mode, chk in (("unsafe", "unsafe"), ("safe", "safe"), ("late", "safe")):
         nviol += runner.run_relational(
@@ -109,8 +140,16 @@ def run(tier, seed):
             ex_kw=dict(depth=3 if tier == "quick" else 5, max_paths=8 if tier == "quick" else 40),
             case_kw=dict(cmp=CMP, cmpall=CMP, cmpcb=False, cmpsave=False, chk12=chk),
             assumptions=["host implementations and Ink fallbacks of an external compute the same pure function"])
+    progs4 = [only_nested(seed * 37 + i) for i in range(16 if tier == "quick" else 120)]
+    for mode in ("late", "unsafe", "safe"):
+        nviol += runner.run_relational(
+            "C12", progs4, Build(tier, seed, mode), tier, seed, "model_checking",
+            rule="small programs whose call sites are all nested in conditional blocks, sequences, stitches and choice "
+                 "bodies and not on the first line x mode %s" % mode,
+            ex_kw=dict(depth=3, max_paths=8),
+            case_kw=dict(cmp=CMP, cmpall=CMP, cmpcb=False, cmpsave=False, chk12="unsafe" if mode == "unsafe" else "safe"))
     # call sites inside strings and choice text: safe proceeds (equals the fallback run), unsafe is never called
-    progs2 = common.gen_programs(max(8, n // 2), seed + 21, vars=2, externals=3.0, ext_counters=1, ext_in_strings=2.0)
+    progs2 = common.gen_programs(max(8, n // 2), seed + 21, vars=2, externals=3.0, ext_counters=1, ext_in_strings=2.0, retype=0.0)
     nviol += runner.run_relational(
         "C12", progs2, Build(tier, seed, "safe"), tier, seed, "model_checking",
         rule="as above with calls inside string literals and choice text, bound look-ahead-safe",
